@@ -93,7 +93,8 @@ def compact (s : MState) : MState :=
   { s with cache := fun n => (es.find? (·.1 == n)).map (·.2),
            dyn := { loaded := fun i => ld.contains i,
                     on := fun i e => on.contains (i, e),
-                    tgts := fun i e => ((tg.find? (·.1 == (i, e))).map (·.2)).getD [] } }
+                    tgts := fun i e => ((tg.find? (·.1 == (i, e))).map (·.2)).getD [],
+                    bspecs := s.dyn.bspecs } }
 
 /-! ## Table-backed twin of the cascade
 
@@ -143,7 +144,7 @@ def mstepT (s : TState) : MStep → TState
     let d' := setOn s.dyn i es false
     { s with dyn := d', tbl := visitAllT u s.cfg d' (fuelOf u) s.tbl direct }
   | .apply i e ts =>
-    let d' := setTgts s.dyn i e ((s.dyn.tgts i e) ++ ts)
+    let d' := setTgts s.dyn i e ((s.dyn.tgts i e) ++ ts.filter fun t => !(s.dyn.tgts i e).contains t)
     { s with dyn := d',
              tbl := visitAllT u s.cfg d' (fuelOf u) s.tbl (directOf u s.cfg d' (projSpecsOf u s.cfg d' i e ts)) }
   | .unapply i e ts =>
@@ -151,6 +152,8 @@ def mstepT (s : TState) : MStep → TState
     let d' := setTgts s.dyn i e ((s.dyn.tgts i e).filter fun t => !ts.contains t)
     { s with dyn := d', tbl := visitAllT u s.cfg d' (fuelOf u) s.tbl direct }
   | .changed i attr => { s with tbl := cascT u s.cfg s.dyn (fuelOf u) s.tbl (i, attr) }
+  | .buffset i e ms =>
+    { s with dyn := { s.dyn with bspecs := fun j f => if j = i ∧ f = e then ms else s.dyn.bspecs j f } }
   | .reconfig cfg' => { s with cfg := cfg' }
 
 /-- Table of the entries a cache function holds for the configuration's items. -/
@@ -165,8 +168,12 @@ def compactDyn (cfg : Config) (d : Dyn) : Dyn :=
   let tg := cfg.items.flatMap fun x => (effs x).filterMap fun e =>
     let ts := d.tgts x.id e
     if ts.isEmpty then none else some ((x.id, e), ts)
+  let bs := cfg.items.flatMap fun x => (effs x).filterMap fun e =>
+    let ms := d.bspecs x.id e
+    if ms.isEmpty then none else some ((x.id, e), ms)
   { loaded := fun i => ld.contains i, on := fun i e => on.contains (i, e),
-    tgts := fun i e => ((tg.find? (·.1 == (i, e))).map (·.2)).getD [] }
+    tgts := fun i e => ((tg.find? (·.1 == (i, e))).map (·.2)).getD [],
+    bspecs := fun i e => ((bs.find? (·.1 == (i, e))).map (·.2)).getD [] }
 
 /-- One message as the driver processes it: the table twin of the step, then the re-packing of the
 registers (this very definition is what `Driver/Micro.lean` calls). -/
